@@ -975,7 +975,16 @@ pub fn finite(path: &str, out_dir: &str, thorough: bool, skip: usize) -> Result<
     let all_fns: Vec<String> = Function::into_iter().map(|f| f.to_localized_name(language)).collect();
     // quick tier: the functions the probe found on the pinned tree; thorough tier: probe again
     let unbounded: Vec<String> = if thorough {
-        probe_unbounded(&all_fns)
+        // probed once per run: a restart after a watchdog stop reads the list back
+        let cache = format!("{}/unbounded.json", out_dir);
+        match std::fs::read_to_string(&cache).ok().and_then(|t| serde_json::from_str::<Vec<String>>(&t).ok()) {
+            Some(v) if skip > 0 => v,
+            _ => {
+                let v = probe_unbounded(&all_fns);
+                let _ = std::fs::write(&cache, serde_json::to_string(&v).unwrap_or_default());
+                v
+            }
+        }
     } else {
         ["BESSELJ", "BESSELK", "COMBIN", "COMBINA", "FACT", "FACTDOUBLE", "MULTINOMIAL", "PERMUT", "REPT", "T.INV.2T", "TINV"].iter().map(|x| x.to_string()).collect()
     };
